@@ -1,6 +1,7 @@
 """C09 (reduced form) — the grammar front-end is total. Engine M executes the real pest_meta::parse_and_optimize (checked-in
-meta-parser, validate_pairs, consume_rules, validate_ast, optimize) from MIR on every text of up to N bytes and on near-miss
-grammar templates with symbolic holes; no path may panic, and every reported error must carry a location inside the text."""
+meta-parser, validate_pairs, consume_rules, validate_ast, optimize) and pest_generator::docs::consume from MIR on every text of
+up to N bytes and on near-miss grammar templates with symbolic holes; no path may panic, every reported error must carry a
+location inside the text and is rendered by the real Error::format (compared with the native rendering)."""
 import os, time, json, re
 import z3
 from common import *
@@ -41,6 +42,16 @@ def templates():
     return out
 
 
+def load():
+    from mirsym.setup import program
+    import gensym
+    P = program(("pest", "pest_meta", "pest_generator"))
+    src = open(os.path.join(REPO, "meta/src/grammar.rs")).read()
+    P.variants["parser::Rule"] = gensym.enum_variants(src)
+    P.variants["Rule"] = P.variants["parser::Rule"]
+    return P
+
+
 def explore(args):
     P, spec = args
     ex = Explorer(max_steps=8_000_000)
@@ -65,6 +76,16 @@ def explore(args):
         except Panic as e:
             fns.update(I.fn_used)
             return {"res": "PANIC", "msg": str(e)}
+        fns.update(I.fn_used)
+        # the second observation point of the statement: pest_generator::docs::consume on the pairs of the meta-parser
+        # (what the derive does before validating); it has to survive whatever the meta-parser accepts
+        try:
+            pr = I.call("", "parser::parse", [I.make_adt("parser::Rule::grammar_rules", []), inp])
+            if pr.idx == 0:
+                I.call("", "docs::consume", [pr.f[0]])
+        except Panic as e:
+            fns.update(I.fn_used)
+            return {"res": "PANIC", "msg": "pest_generator::docs::consume: " + str(e), "docs": True}
         fns.update(I.fn_used)
         if r.idx == 0:
             return {"res": "OK", "rules": len(r.f[0].f[1].f)}
@@ -101,7 +122,7 @@ def explore(args):
 
 def run(ctx):
     native.build()
-    P = c07.load()
+    P = load()
     known, _ = load_known("C09")
     N = int(os.environ.get("VERIF_C09_N", "2" if ctx.quick else "3"))
     tm = templates()
@@ -151,7 +172,7 @@ def run(ctx):
            "functions_encoded": sorted(set(f for r in res for f in r["fns"]))[:500],
            "bounds": f"every valid UTF-8 text of 0..{N} bytes (symbolic) + {len(tm)} near-miss templates (truncated constructs, odd escapes, unbalanced delimiters, stray bytes after every kind of token, out-of-range numbers) with 1-2 symbolic ASCII holes; rule names concrete",
            "queries_discharged": sum(r["queries"] for r in res), "solver_time_s": round(sum(r["solver_s"] for r in res), 2), "encoder_mismatches": len(enc), "events": events[:8], "exhaustive": False}
-    write_evidence(ctx, "other", cov, ["MIR of pest_meta (meta-parser, validator, optimizer) and pest; HashMap/HashSet/LazyLock summarised; format!/write!/to_string interpreted from the compiler's fmt::Arguments template (core::fmt semantics assumed as documented); generator/src/docs.rs is not part of the encoded pipeline",
+    write_evidence(ctx, "other", cov, ["MIR of pest_meta (meta-parser, validator, optimizer) and pest; HashMap/HashSet/LazyLock summarised; format!/write!/to_string interpreted from the compiler's fmt::Arguments template (core::fmt semantics assumed as documented); pest_generator::docs::consume runs from MIR on the pairs of every text the meta-parser accepts",
                                        "bounded time is witnessed by the step budget per path (8M MIR statements), never reached"],
                    {"repo_hashes": repo_hashes(["meta/src/lib.rs", "meta/src/parser.rs", "meta/src/validator.rs", "meta/src/optimizer/mod.rs"])})
     if ctx.violations: return
